@@ -1,6 +1,7 @@
 import Driver.Proto
 import TongoModel.Adnl
 import TongoModel.Prim.Aes
+import TongoModel.Prim.Sha512
 /-! Line handlers for property C11 (ADNL frames, stream ciphers, handshake). The model's parameters are instantiated
 with the executable primitives: `H := Sha256.hash`, keystreams from AES-256-CTR. -/
 namespace Driver
@@ -128,6 +129,23 @@ def opsC11 : List (String × Handler) := [
     | some ps => "ok " ++ String.ofList (ps.map fun p => match connReader p with
         | .forward => 'f' | .pong => 'p' | .authNonce => 'a')
     | none => "bad-op"),
+  ("adnl.keyid", fun
+    | [pk] => match unhexFast pk with
+      | some pk => "ok " ++ hexFast (keyId sha pk)
+      | none => "bad-op"
+    | _ => "bad-op"),
+  ("adnl.scalar", fun
+    | [seed] => match unhexFast seed with
+      | some seed => "ok " ++ hexFast (scalarOf ⟨Sha512.hash, id, fun _ => none, fun _ _ => []⟩ seed)
+      | none => "bad-op"
+    | _ => "bad-op"),
+  ("adnl.tomont", fun
+    | [pk] => match unhexFast pk with
+      | some pk => match toMontSpec pk with
+        | some u => if isLowOrderU u then "rejected" else "ok " ++ hexFast u
+        | none => "rejected"
+      | none => "bad-op"
+    | _ => "bad-op"),
   ("adnl.reply", fun
     | [pr, n] => match unhexFast pr, unhexFast n with
       | some pr, some n =>
